@@ -15,6 +15,7 @@ pub use serde_json::{Value as Json, json};
 
 pub mod gen_entry;
 pub mod c07;
+pub mod strict_json;
 
 // ------------------------------------------------------------------------------------------------
 // PRNG: splitmix64; every random choice of a run derives from the one seed.
@@ -65,11 +66,14 @@ pub fn hex(s: &[u8]) -> String {
     if s.is_empty() {
         return "-".to_string();
     }
-    let mut out = String::with_capacity(s.len() * 2);
+    // table-driven (same output as `format!("{b:02x}")` per byte; multi-megabyte strings are encoded)
+    const DIGITS: &[u8; 16] = b"0123456789abcdef";
+    let mut out = Vec::with_capacity(s.len() * 2);
     for b in s {
-        out.push_str(&format!("{b:02x}"));
+        out.push(DIGITS[(b >> 4) as usize]);
+        out.push(DIGITS[(b & 15) as usize]);
     }
-    out
+    String::from_utf8(out).expect("hex digits are ASCII")
 }
 
 pub fn unhex(s: &str) -> Option<Vec<u8>> {
